@@ -17,7 +17,7 @@ ASSUMPTIONS = [
 
 
 def shards(tier):
-    return [('mem', s) for s in Q.shards(tier)] + [('disk', s) for s in D.shards(tier)]
+    return [('mem', s) for s in Q.shards(tier)] + [('disk', s) for s in D.shards(tier)] + [('hashseed', 0)]
 
 
 def bounds(tier):
@@ -30,11 +30,18 @@ def run_shard(shard, tier, acc):
     kind, s = shard
     if kind == 'mem':
         Q.run_shard(s, tier, acc, 'C01')
-    else:
+    elif kind == 'disk':
         D.run_shard(s, tier, acc, 'C01')
+    else:
+        D.run_hashseed(tier, acc)
 
 
 def replay(case):
+    if case.get('kind') == 'hashseed':
+        from ..runner import Acc
+        acc = Acc()
+        D.run_hashseed('quick', acc)
+        return acc.failures[0]['msg'] if acc.failures else None
     if case.get('kind') == 'disk':
         return D.replay(case, 'C01')
     return Q.replay(case, 'C01')
